@@ -117,7 +117,14 @@ class _IndexAxiom:
             g["fs_inst"] -= 1
 
 
+def lazy(I, what):
+    """record that the path condition contains lazily instantiated axioms (a `sat` answer is then
+    a candidate counterexample only; see Session.discharge / the runner)"""
+    I.ctx.ghost["lazy_axioms"] = what
+
+
 def add_index_axiom(I, lo, hi, body, extra=()):
+    lazy(I, "image sets / filtered sequences over an index range")
     ax = _IndexAxiom(lo, hi, body)
     I.ctx.ghost.setdefault("fs_axioms", []).append(ax)
     for k in list(I.ctx.ghost.get("index_terms", {}).values()) + list(extra):
@@ -153,6 +160,7 @@ class AbsPred:
         # e.g. a section E(j, .) of a binary uninterpreted predicate)
         self.P = P if P is not None else z3.Function(self.name, z3.RealSort(), z3.BoolSort())
         self.axioms = axioms
+        lazy(I, "sets given by an uninterpreted predicate")
         self.terms: dict = {}        # candidate members named by the specification / the code
         self.derived: dict = {}      # Skolem pre-images
         self.queries: list = []      # (component, y, conj): membership queries awaiting instances
@@ -500,6 +508,7 @@ class SortedSeq(SymSeq):
         SymSeq.__init__(self, n, self._elem, "list")
         I.session.note("sorted(set of floats): trusted specification (strictly increasing enumeration of "
                        "exactly the members)")
+        lazy(I, "sorted() of a symbolic set")
         self.source.seed_terms(I)
         self.source.observe(self._member_named)
 
